@@ -49,7 +49,7 @@ def run(tier, seed, replay):
     if tier == "quick":
         cands = [c for c in cands if len(c) <= 2 or r.random() < 0.5] + [c for c in strings(4) if r.random() < 0.03]
     # random unicode / awkward strings, chunk sequences
-    uni = ["é", "✓", "\U0001f600", "\n", "\t", "\\", "\"", "'", "\x01", "\x7f", " ", "%%", "%a%", "%env(\"H\")%", "%todo()%", "%envInt(\"N\", 5)%", "%a.b-c_d%", "x", "1"]
+    uni = ["é", "✓", "\U0001f600", "\n", "\t", "\\", "\"", "'", "\x01", "\x7f", " ", "%%", "%a%", "%env(\"H\")%", "%todo()%", "%envInt(\"N\", 5)%", "%a.b-c_d%", "x", "1", "%", "%", "% %", "%(", ")%", "%1%", "%a", "a%", "(", ")", ",", "%env(", "%fnx(\"a\")%", "%Env(\"H\")%", "%env (\"H\")%", "%a b%", "%é%", "\u2028", "\ufeff", "\x00"]
     for _ in range(300 if tier == "quick" else 20000):
         cands.append("".join(r.choice(uni) for _ in range(r.randint(1, 7))))
     # strings that look like the service-argument forms: as PARAMETER values they are plain text (no `%` in them)
@@ -106,7 +106,11 @@ def run(tier, seed, replay):
             if got:
                 cls = "not closed token" if got[0].startswith("not closed token") else "unexpected function" if got[0].startswith("unexpected function") else "unexpected token" if got[0].startswith("unexpected token") else got[0][:30]
             dist[str(want)] = dist.get(str(want), 0) + 1
-            if cls != want and not (want is not None and cls is not None and want != "not closed token" and cls != "not closed token"):
+            if cls != want and want is not None and cls is not None:
+                dist["class_differs"] = dist.get("class_differs", 0) + 1
+                if len(dist.setdefault("class_differs_examples", [])) < 8:
+                    dist["class_differs_examples"].append([cand, want, cls])
+            if cls != want:
                 out.violation("pattern-verdict:%r" % cand[:12], "pattern %r: documented verdict %s, the tool reports %s" % (cand, want or "accepted", got or "nothing"),
                               dict(common.slim(sp), candidate=cand, expected=want, reported=got))
             if want is not None:
@@ -206,6 +210,35 @@ def run(tier, seed, replay):
             if got != want:
                 out.violation("runtime-roundtrip:%r" % sh[:12], "GetParam of the parameter %r (every %% doubled) returns %s instead of the string %r" % (sh, line[:200], want.decode()),
                               dict(common.slim(rsp), history=[o], expected="S(%s)" % want.decode()))
+        # env / envInt / todo as documented, decided here from the probe's environment (not by the runtime model):
+        # env(name) -> the variable's text, error when unset and no default; env(name, dflt) -> dflt when unset (an EMPTY variable is set);
+        # envInt -> the integer (decimal, sign allowed, leading zeros ignored), error when unset without default or not an integer
+        from vlib import rt as _rt
+        E = _rt.ENVV
+        ENVT = [("%env(\"GV_SET\")%", ("S", E["GV_SET"])), ("%env(\"GV_NOPE\")%", ("E", None)), ("%env(\"GV_NOPE\", \"d\")%", ("S", "d")), ("%env(\"GV_EMPTY\")%", ("S", "")),
+                ("%env(\"GV_EMPTY\", \"dflt\")%", ("S", "")), ("%envInt(\"GV_INT\")%", ("I", "42")), ("%envInt(\"GV_INT\")%0", ("S", "420")), ("%envInt(\"GV_BAD\")%", ("E", None)),
+                ("%envInt(\"GV_NOPE\", 7)%", ("I", "7")), ("%envInt(\"GV_NOPE\")%", ("E", None)), ("%envInt(\"GV_Z\")%", ("I", "7")), ("%envInt(\"GV_NEG0\")%", ("I", "0")),
+                ("%envInt(\"GV_PLUS\")%", ("I", "5")), ("%envInt(\"GV_BIG\")%", ("E", None)), ("%envInt(\"GV_MIN\")%", ("I", "-9223372036854775808")), ("%envInt(\"GV_EMPTY\")%", ("E", None)),
+                ("%envInt(\"GV_EMPTY\", 3)%", ("E", None)), ("x%env(\"GV_SET\")%y%envInt(\"GV_INT\")%", ("S", "x" + E["GV_SET"] + "y42")), ("%todo()%", ("E", None)), ("%todo(\"msg\")%", ("E", None)),
+                ("pre %env(\"GV_NOPE\")%", ("E", None)), ("%env(\"GV_NOPE\")% post", ("E", None)), ("%env(\"GV_SET\")%%env(\"GV_NOPE\")%", ("E", None))]
+        ecfg = {"parameters": {"e%d" % i: t for i, (t, _) in enumerate(ENVT)}}
+        esp = common.mk_spec(0, [ecfg], keep_out=True)
+        esp["cfg"] = ecfg
+        esp["what"] = ["runtime-env-table"]
+        eh = [{"op": "param", "name": "e%d" % i} for i in range(len(ENVT))]
+        eobs, erl, _, eacc = rtcommon.run_histories(out, tooldir, env, [esp], [eh], "C03 env/envInt/todo table", "C03")
+        dist["env_table"] = 0
+        if 0 in eacc:
+            for (tok, (kind, val)), o, line in zip(ENVT, eh, erl[0]):
+                dist["env_table"] += 1
+                ok = (kind == "E" and line.startswith("E(")) or (kind == "S" and line == "S(%s)" % _rt.esc(val)) or (kind == "I" and line == "I(int,%s)" % val)
+                if kind == "E" and ok and "todo" not in tok and tok.strip("%").split("(")[0] not in line and "env" not in line:
+                    ok = False      # a failing function yields an error naming the token
+                if not ok:
+                    out.violation("env-table:%s" % tok[:40], "GetParam of %r returns %s, documented: %s" % (tok, line[:200], "an error" if kind == "E" else ("the string %r" % val if kind == "S" else "the int " + val)),
+                                  dict(common.slim(esp, eobs[0]), history=[o]))
+        else:
+            out.violation("env-table:rejected", "the env/envInt/todo table configuration is rejected: %s" % ((eobs[0].get("errors") or [])[:3],), common.slim(esp, eobs[0]))
     elif not replay:
         out.violation("runtime-roundtrip:rejected", "the configuration of plain-text / escaped parameters is rejected: %s" % ((robs[0].get("errors") or [])[:3]), dict(common.slim(rsp, robs[0])))
     out.coverage.update({
